@@ -70,8 +70,8 @@ def Ctx.subscriptionReply (c : Ctx) (t : Topic) (a : Actor) (mode : String) (pri
       if !a.bg ∧ hasJoined then
         if !t.loaded then
           -- the topic is online now: every subscriber is told on `me`
-          let status := if isPresencer (eff (t.pud a.uid)) then "on+en" else "on"
-          (c.presSubsOffline t status "" "" "" 0 0 { what := status } "" false, { t with loaded := true })
+          let cmd := if isPresencer (eff (t.pud a.uid)) then "en" else ""
+          (c.presSubsOffline t "on" "" "" "" 0 0 { what := "on" } "" false cmd, { t with loaded := true })
         else if (t.pud a.uid).online = 1 then
           (c.presOnline t { what := "on", src := a.uid, filterIn := modeRead, skipSid := a.sid }, t)
         else (c, t)
@@ -708,8 +708,8 @@ def Ctx.fgTopic (c : Ctx) (sid : Sid) (tn : TName) : Ctx :=
       let t := t.setPud uid { p with online := p.online + 1 }
       let (c, t) :=
         if !t.loaded then
-          let status := if isPresencer (eff (t.pud uid)) then "on+en" else "on"
-          (c.presSubsOffline t status "" "" "" 0 0 { what := status } "" false, { t with loaded := true })
+          let cmd := if isPresencer (eff (t.pud uid)) then "en" else ""
+          (c.presSubsOffline t "on" "" "" "" 0 0 { what := "on" } "" false cmd, { t with loaded := true })
         else if (t.pud uid).online = 1 then (c.presOnline t { what := "on", src := uid, filterIn := modeRead, skipSid := sid }, t)
         else (c, t)
       c.putLive t
